@@ -277,6 +277,42 @@ Proof.
       replace (endws (endws b ta) [SP]) with true by (unfold endws; cbn; rewrite is_ws_SP; reflexivity). exact E2.
 Qed.
 
+Lemma esc_core_head t : t <> [] -> head_nows t -> head_nows (esc_text t) /\ esc_text t <> [].
+Proof.
+  intros Hn Hh. destruct t as [|c r]; [congruence|]. cbn in Hh.
+  change (esc_text (c :: r)) with (cce_lookup pp_cce_text c ++ esc_text r).
+  destruct (esc_char_cases c) as [[Hw _]|[_ (d & x & E & HF)]]; [congruence|]. rewrite E. cbn. inversion HF; subst. split; [assumption|discriminate].
+Qed.
+Lemma elen_nonneg' s : (0 <= elen s)%Z. Proof. unfold elen, py_len. lia. Qed.
+
+(* _wrap_text terminates for every width (also 0 and negative ones, which occur as "remaining space - 1") *)
+Lemma skipn_shorter {A} (l : list A) n : l <> [] -> (0 < n)%nat -> (length (skipn n l) < length l)%nat.
+Proof. intros Hl Hn. rewrite skipn_length. destruct l; [congruence|cbn [length]; lia]. Qed.
+
+Lemma py_find1_pos_nonempty (s : str) c start : (py_find1 s c start > 0)%Z -> s <> [].
+Proof.
+  unfold py_find1. intros H Hs. subst s. rewrite skipn_nil in H. cbn in H. lia.
+Qed.
+
+Lemma wrap_loop_total fuel : forall text wz, (length text < fuel)%nat -> exists ls, wrap_text_loop fuel text wz = Some ls.
+Proof.
+  induction fuel as [|f IH]; intros text wz Hf; [lia|]. cbn [wrap_text_loop].
+  destruct (py_len text >? wz)%Z; [|eexists; reflexivity].
+  unfold wrap_text_step.
+  destruct (py_rfind1 text 32%N (wz + 1) >? -1)%Z eqn:E1.
+  - apply Z.gtb_lt in E1. pose proof (py_rfind1_bounds text 32%N (wz + 1) ltac:(lia)) as [Hb _].
+    assert (Hne : text <> []) by (intros ->; unfold py_len in Hb; cbn in Hb; lia).
+    destruct (IH (py_slice_from text (py_rfind1 text 32%N (wz + 1) + 1)) wz) as (ls & El).
+    { unfold py_slice_from. pose proof (skipn_shorter text (Z.to_nat (py_rfind1 text 32%N (wz + 1) + 1)) Hne ltac:(lia)). lia. }
+    rewrite El. eexists. reflexivity.
+  - destruct (py_find1 text 32%N wz >? 0)%Z eqn:E2.
+    + apply Z.gtb_lt in E2. assert (Hne : text <> []) by (apply (py_find1_pos_nonempty text 32%N wz); lia).
+      destruct (IH (py_slice_from text (py_find1 text 32%N wz + 1)) wz) as (ls & El).
+      { unfold py_slice_from. pose proof (skipn_shorter text (Z.to_nat (py_find1 text 32%N wz + 1)) Hne ltac:(lia)). lia. }
+      rewrite El. eexists. reflexivity.
+    + eexists. reflexivity.
+Qed.
+
 (* the segments of a text without adjacent whitespace that begins with a non-whitespace character begin that way too *)
 Lemma wl_segs_ok w t us c : wl w t us c -> naw false t = true -> head_nows t -> Forall head_nows us.
 Proof.
@@ -380,6 +416,117 @@ Proof.
   intros Hh. destruct (rstrip_split u) as (w & Hw & E & _). destruct (rstrip u) as [|c r] eqn:Er.
   - exfalso. cbn in E. rewrite E in Hh. destruct w as [|c r]; [cbn in Hh; tauto|]. cbn in Hh. inversion Hw; subst. congruence.
   - split; [discriminate|]. rewrite E in Hh. exact Hh.
+Qed.
+
+(* the first line of _wrap_text, for every width *)
+Lemma first_line_any t (wz : Z) : t <> [] -> head_nows t -> naw false t = true ->
+  exists f rem, hd [] (match wrap_text (esc_text t) wz with Some l => l | None => [] end) = esc_text f /\
+    f <> [] /\ head_nows f /\ t = f ++ rem /\
+    (rem = [] \/ exists tb, rem = SP :: tb /\ (tb = [] -> (wz <= elen (esc_text f))%Z) /\
+                            (tb <> [] -> head_nows tb /\ naw false tb = true)).
+Proof.
+  intros Hne Hh Hn. destruct (Z_le_gt_dec 1 wz) as [Hw|Hw].
+  - destruct (wrap_lines_wl t wz Hw Hne) as (us & c & E & Hwl). rewrite E.
+    pose proof (wl_segs_ok _ _ _ _ Hwl Hn Hh) as HF.
+    inversion Hwl as [t' Ht' Et Eu | ta Hl Et Eu | ta tb us' c' Htb Hw' Et Eu]; subst.
+    + exists t, []. cbn [map hd]. rewrite app_nil_r. repeat split; auto.
+    + inversion HF; subst. exists ta, [SP]. cbn [map hd]. split; [reflexivity|]. split; [apply head_nows_ok; assumption|].
+      split; [assumption|]. split; [reflexivity|]. right. exists []. split; [reflexivity|]. split; [|congruence].
+      intros _. unfold elen, py_len. lia.
+    + inversion HF; subst. exists ta, (SP :: tb). cbn [map hd]. split; [reflexivity|]. split; [apply head_nows_ok; assumption|].
+      split; [assumption|]. split; [reflexivity|]. right. exists tb. split; [reflexivity|]. split; [congruence|]. intros _.
+      destruct (naw_split ta tb false Hn) as (_ & Hb & Hc). split; [destruct tb; [congruence|exact Hb]|exact Hc].
+  - (* width <= 0: the line is the first word *)
+    assert (Het : esc_text t <> []) by (intros E; apply esc_text_nil in E; congruence).
+    assert (Hhe : head_nows (esc_text t)) by (apply (proj1 (esc_core_head t Hne Hh))).
+    unfold wrap_text. cbn [wrap_text_loop].
+    replace (py_len (esc_text t) >? wz)%Z with true by (symmetry; apply Z.gtb_lt; unfold py_len; destruct (esc_text t); [congruence|cbn [length]; lia]).
+    unfold wrap_text_step.
+    assert (E1 : py_rfind1 (esc_text t) 32%N (wz + 1) = (-1)%Z).
+    { unfold py_rfind1. assert (Hf : firstn (Z.to_nat (wz + 1)) (esc_text t) = [] \/ exists c0, firstn (Z.to_nat (wz + 1)) (esc_text t) = [c0] /\ is_ws c0 = false).
+      { destruct (Z.to_nat (wz + 1)) as [|[|n]] eqn:En; [left; reflexivity| |lia].
+        right. destruct (esc_text t) as [|c0 r]; [congruence|]. exists c0. split; [reflexivity|exact Hhe]. }
+      destruct Hf as [->|(c0 & -> & Hc0)]; [reflexivity|]. cbn [rfind_nat].
+      destruct (N.eqb_spec c0 32) as [->|_]; [exfalso; revert Hc0; vm_compute; discriminate|reflexivity]. }
+    rewrite E1. replace (-1 >? -1)%Z with false by reflexivity.
+    assert (E2 : py_find1 (esc_text t) 32%N wz = match find_nat SP (esc_text t) with Some i => Z.of_nat i | None => (-1)%Z end).
+    { unfold py_find1. replace (Z.to_nat wz) with O by lia. cbn [skipn]. replace (Z.max 0 wz) with 0%Z by lia.
+      change 32%N with SP. destruct (find_nat SP (esc_text t)); [rewrite Z.add_0_l|]; reflexivity. }
+    rewrite E2. destruct (find_nat SP (esc_text t)) as [i|] eqn:Ef.
+    + destruct (find_nat_spec _ _ _ Ef) as [Hnth _].
+      assert (Hi : i <> O) by (intros ->; destruct (esc_text t) as [|c0 r]; [discriminate|]; cbn in Hnth, Hhe; injection Hnth as ->; rewrite is_ws_SP in Hhe; discriminate).
+      replace (Z.of_nat i >? 0)%Z with true by (symmetry; apply Z.gtb_lt; lia).
+      pose proof (firstn_skipn_mid _ _ _ Hnth) as Esplit.
+      destruct (esc_split t _ _ Esplit) as (ta & tb & Et & Ea & Eb).
+      destruct (wrap_loop_total (length (esc_text t)) (py_slice_from (esc_text t) (Z.of_nat i + 1)) wz) as (ls & El).
+      { unfold py_slice_from. apply skipn_shorter; [exact Het|lia]. }
+      rewrite El. cbn [option_map app hd]. unfold py_slice_to. rewrite Nat2Z.id.
+      assert (Hta : ta <> []).
+      { intros ->. cbn in Ea. destruct i; [congruence|]. destruct (esc_text t); [congruence|discriminate]. }
+      exists ta, (SP :: tb). split; [symmetry; exact Ea|]. split; [exact Hta|].
+      split; [rewrite Et in Hh; destruct ta; [congruence|exact Hh]|]. split; [exact Et|].
+      right. exists tb. split; [reflexivity|]. split.
+      * intros _. pose proof (elen_nonneg' (esc_text ta)). lia.
+      * intros Htb. rewrite Et in Hn. destruct (naw_split ta tb false Hn) as (_ & Hb & Hc). split; [destruct tb; [congruence|exact Hb]|exact Hc].
+    + replace (-1 >? 0)%Z with false by reflexivity. cbn [hd]. exists t, []. rewrite app_nil_r. repeat split; auto.
+Qed.
+
+(* exact offsets, for the case that the trailing space of a text was consumed by a line break *)
+Lemma rfind_nat_notin c (s : str) : ~ In c s -> rfind_nat c s = None.
+Proof.
+  induction s as [|x r IH]; [reflexivity|]. intros H. cbn [rfind_nat]. rewrite IH by (intros Hi; apply H; right; exact Hi).
+  destruct (N.eqb_spec x c) as [->|]; [exfalso; apply H; left; reflexivity|reflexivity].
+Qed.
+Lemma py_rfind1_notin (s : str) c stop : ~ In c s -> py_rfind1 s c stop = (-1)%Z.
+Proof.
+  intros H. unfold py_rfind1. rewrite rfind_nat_notin; [reflexivity|]. intros Hi. apply H.
+  rewrite <- (firstn_skipn (Z.to_nat stop) s). apply in_or_app. left. exact Hi.
+Qed.
+
+Lemma emit_off_exact st d : d <> [] -> match d with c :: _ => c <> LF | [] => True end -> ~ In LF d ->
+  w_off (snd (emit st d)) = (w_off st + elen d)%Z.
+Proof.
+  intros Hn Hh Hl. unfold emit. destruct (writer_shape (w_pres st) (w_off st) d) as (d' & Hd & H).
+  assert (Ed : d' = d) by (destruct Hd as [->|(_ & _ & ->)]; [reflexivity|apply lstrip_char_id; exact Hh]). subst d'.
+  destruct H as [[E _]|(_ & _ & [[El _]|[_ Es]])]; [congruence| |].
+  - exfalso. apply str_eqb_eq in El. apply py_last1_nth in El as [_ El]. apply Hl. eapply nth_error_In. exact El.
+  - destruct (writer_call (w_pres st) (w_off st) d) as [x o']. cbn [snd w_off] in *. rewrite Es.
+    rewrite (py_rfind1_notin d 10%N (py_len d) Hl). reflexivity.
+Qed.
+
+Lemma esc_no_lf x : ~ In LF x -> ~ In LF (esc_text x).
+Proof.
+  induction x as [|c r IH]; [exact (fun _ H => H)|]. intros H Hi.
+  change (esc_text (c :: r)) with (cce_lookup pp_cce_text c ++ esc_text r) in Hi. apply in_app_or in Hi as [Hi|Hi].
+  - assert (Hc : c <> LF) by (intros ->; apply H; left; reflexivity). revert Hi. unfold pp_cce_text. cbn [cce_lookup].
+    destruct (N.eqb_spec c 38) as [->|H1]; [cbn; intuition discriminate|].
+    destruct (N.eqb_spec c 62) as [->|H2]; [cbn; intuition discriminate|].
+    destruct (N.eqb_spec c 60) as [->|H3]; [cbn; intuition discriminate|]. cbn. intros [E|[]]. congruence.
+  - apply IH; [|exact Hi]. intros Hr. apply H. right. exact Hr.
+Qed.
+
+Lemma collapse_fix_no_lf s : forall b, collapse_aux b s = s -> ~ In LF s.
+Proof.
+  induction s as [|c r IH]; intros b H; [exact (fun H => H)|]. cbn [collapse_aux] in H.
+  destruct (is_ws c) eqn:Ec.
+  - destruct b.
+    + exfalso. pose proof (collapse_aux_len true r) as Hl. rewrite H in Hl. cbn in Hl. lia.
+    + injection H as Hc H. intros [E|Hi]; [subst c; discriminate|]. exact (IH true H Hi).
+  - injection H as H. intros [E|Hi]; [subst c; revert Ec; vm_compute; discriminate|]. exact (IH false H Hi).
+Qed.
+
+Lemma wl_incl w t us c : wl w t us c -> forall u, In u us -> forall x, In x u -> In x t.
+Proof.
+  induction 1 as [t Ht | ta Hl | ta tb us c Htb Hw IH]; intros u Hu x Hx.
+  - destruct Hu as [<-|[]]. exact Hx.
+  - destruct Hu as [<-|[]]. apply in_or_app. left. exact Hx.
+  - destruct Hu as [<-|Hu]; apply in_or_app; [left; exact Hx|right; right; exact (IH u Hu x Hx)].
+Qed.
+
+Lemma wl_consumed_last w t us : wl w t us true -> (w <= length (esc_text (last us [])))%nat.
+Proof.
+  intros H. remember true as c eqn:Ec. induction H as [t Ht | ta Hl | ta tb us c Htb Hw IH]; [discriminate|exact Hl|].
+  specialize (IH Ec). pose proof (wl_nonempty _ _ _ _ Hw) as Hne. destruct us as [|u r]; [congruence|]. exact IH.
 Qed.
 
 Section TextStep.
@@ -519,12 +666,54 @@ Section TextStep.
   Proof.
     induction 1 as [|u r Hu Hr IH]; intros Hn; [congruence|]. destruct r as [|u2 r'].
     - cbn [WR app py_join]. replace (null u) with false by (destruct u; [congruence|reflexivity]).
-      split; [reflexivity|]. rewrite app_nil_r, <- app_assoc. reflexivity.
+      split; [reflexivity|]. cbn [null]. rewrite app_nil_r. reflexivity.
     - destruct (IH ltac:(discriminate)) as [E1 E2].
       change ((u :: u2 :: r') ++ [[]]) with (u :: (u2 :: r') ++ [[]]).
       rewrite (WR_cons i u (u2 :: r')) by discriminate. rewrite (WR_cons i u ((u2 :: r') ++ [[]])) by discriminate.
       replace (null u) with false by (destruct u; [congruence|reflexivity]). rewrite E1, E2.
       rewrite join_cons2. rewrite <- !app_assoc. split; reflexivity.
+  Qed.
+
+  Lemma elen_indent L : elen (indent ind L) = ilen ind L.
+  Proof.
+    unfold elen, py_len, ilen, indent. induction L as [|n IH]; [reflexivity|].
+    cbn [repeat_str]. rewrite app_length, Nat2Z.inj_add, IH. unfold elen, py_len. lia.
+  Qed.
+
+  Lemma esc_line_head_ok L u x : head_ok u -> u <> [] -> match indent ind L ++ esc_text u ++ x with c :: _ => c <> LF | [] => True end.
+  Proof.
+    intros Hu Hn. destruct u as [|c0 u0]; [congruence|]. cbn in Hu.
+    change (esc_text (c0 :: u0)) with (cce_lookup pp_cce_text c0 ++ esc_text u0).
+    pose proof (esc_head_not_lf c0 Hu) as H1. destruct (cce_lookup pp_cce_text c0) as [|d y] eqn:E; [destruct H1|].
+    pose proof (indent_head_nolf ind ind_nolf L ((d :: y) ++ esc_text u0 ++ x)) as H.
+    destruct (indent ind L ++ ((d :: y) ++ esc_text u0) ++ x) as [|c r] eqn:E2; [exact I|].
+    intros ->. rewrite <- app_assoc in E2. rewrite E2 in H. cbn in H.
+    assert (Hd : N.eqb d LF = false) by (destruct (N.eqb_spec d LF); [congruence|reflexivity]). specialize (H Hd). discriminate.
+  Qed.
+
+  (* the state before the last line of a list of lines is written *)
+  Lemma write_lines_last L ini u : u <> [] -> Forall head_ok ini -> forall st,
+    exists stb, snd (write_lines ind L st (map esc_text (ini ++ [u]))) = snd (emit stb (indent ind L ++ esc_text u)) /\
+      ((0 <= w_off st)%Z -> (0 <= w_off stb)%Z) /\ (ini = [] -> stb = st) /\ (ini <> [] -> w_off stb = 0%Z).
+  Proof.
+    intros Hu. induction 1 as [|x r Hx Hr IH]; intros st.
+    - exists st. cbn [app map write_lines]. rewrite null_esc. replace (null u) with false by (destruct u; [congruence|reflexivity]).
+      rewrite emit_raw_snd. repeat split; auto. congruence.
+    - change (map esc_text ((x :: r) ++ [u])) with (esc_text x :: map esc_text (r ++ [u])).
+      rewrite (write_lines_cons ind L st (esc_text x) (map esc_text (r ++ [u]))) by (destruct r; discriminate).
+      rewrite null_esc.
+      assert (H1 : w_off (snd (if null x then emit_raw st NL else emit_raw st (indent ind L ++ esc_text x ++ NL))) = 0%Z).
+      { destruct (null x) eqn:En; rewrite emit_raw_snd; [apply emit_NL_off|].
+        apply emit_off_lf.
+        - replace (indent ind L ++ esc_text x ++ NL) with ((indent ind L ++ esc_text x) ++ NL) by (rewrite <- app_assoc; reflexivity).
+          apply ends_lf_app_NL.
+        - apply esc_line_head_ok; [exact Hx|destruct x; [discriminate|discriminate]]. }
+      destruct (if null x then emit_raw st NL else emit_raw st (indent ind L ++ esc_text x ++ NL)) as [c0 st1]. cbn [snd] in H1.
+      destruct (IH st1) as (stb & E & Hn & He & Hne).
+      destruct (write_lines ind L st1 (map esc_text (r ++ [u]))) as [cs st2]. cbn [snd] in *.
+      exists stb. split; [exact E|]. split; [|split; [discriminate|]].
+      + intros _. destruct r as [|y r']; [rewrite (He eq_refl); lia|rewrite (Hne ltac:(discriminate)); lia].
+      + intros _. destruct r as [|y r']; [rewrite (He eq_refl); exact H1|apply Hne; discriminate].
   Qed.
 
   (* ---- _consolidate_text_lines on the line lists that occur ------------------------------------------------ *)
@@ -583,6 +772,162 @@ Section TextStep.
       + destruct (w_off st =? 0)%Z; cbn [andb hd null tl app].
         * rewrite c3_F by exact Hun. rewrite app_nil_r, map_app. reflexivity.
         * rewrite c3_F2 by exact Hun. rewrite app_nil_r, map_app. reflexivity.
+  Qed.
+
+  (* ---- the common end of _serialize_text_over_lines, from a line that is already partly filled ------------- *)
+  Definition finish_e (L : nat) (is_last la : bool) (next_sib : option rpath) (pre : list chunk) (st : wst) (lines : list str)
+    : list chunk * wst :=
+    let lines := if (py_endswith (last lines []) [SP] && la
+                     && match next_sib with Some f => req_falsy req f (width - elen (last lines [])) | None => false end)%bool
+                 then lines ++ [[]] else lines in
+    let lines := consolidate L st is_last la lines in
+    let '(cs, st') := write_lines ind L st lines in (pre ++ cs, st').
+
+  Lemma tol_unfold L st rp content lb la is_last next_sib :
+    text_over_lines ind width req L st rp content lb la is_last next_sib =
+    if (w_off st =? 0)%Z then finish_e L is_last la next_sib [] st ((if lb then [[]] else []) ++ wrap_lines (lstrip content) width)
+    else
+      let filling := if py_startswith content [SP]
+                     then [SP] ++ hd [] (wrap_lines (py_slice_from content 1) (available ind width L st - 1))
+                     else hd [] (wrap_lines content (available ind width L st)) in
+      if ((elen filling >? available ind width L st)%Z && lb)%bool then finish_e L is_last la next_sib [] st ([[]] ++ wrap_lines content width)
+      else let '(c, st1) := emit_raw st filling in
+           if null (py_slice_from content (elen filling + 1)) then (c, st1)
+           else finish_e L is_last la next_sib c st1 ([[]] ++ wrap_lines (py_slice_from content (elen filling + 1)) width).
+  Proof. reflexivity. Qed.
+
+  Lemma indent_no_lf L : ~ In LF (indent ind L).
+  Proof.
+    unfold indent. induction L as [|n IH]; [exact (fun H => H)|]. cbn [repeat_str]. intros Hi. apply in_app_or in Hi as [Hi|Hi]; [|exact (IH Hi)].
+    pose proof ind_nolf as Hn. unfold no_lf in Hn. rewrite forallb_forall in Hn. specialize (Hn LF Hi). discriminate.
+  Qed.
+
+  Lemma finish_nz L is_last la next_sib pre st us i0 :
+    (0 < w_off st)%Z -> (is_last = true -> la = true) -> (next_sib <> None -> is_last = false) ->
+    us <> [] -> last us [] <> [] -> ~ In LF (last us []) -> head_ok (last us []) -> Forall head_ok (removelast us) -> all_ws i0 ->
+    (forall T, Forall head_ok (upd us T) /\
+               WR (indent ind L) (upd us T) = i0 ++ py_join (NL ++ indent ind L) (upd us T) /\
+               WR (indent ind L) (upd us T ++ [[]]) = i0 ++ py_join (NL ++ indent ind L) (upd us T) ++ NL /\
+               exists w, all_ws w /\ py_join (NL ++ indent ind L) us = py_join (NL ++ indent ind L) (upd us T) ++ w) ->
+    exists cs2 D (T : bool), fst (finish_e L is_last la next_sib pre st ([[]] ++ map esc_text us)) = pre ++ cs2 /\ sees cs2 D /\
+      (forall b Y, collapse_aux b (D ++ Y)
+                   = collapse_aux b (NL ++ i0 ++ py_join (NL ++ indent ind L) us ++ (if T then NL else []) ++ Y)) /\
+      (T = true -> la = true) /\
+      (0 <= w_off (snd (finish_e L is_last la next_sib pre st ([[]] ++ map esc_text us))))%Z /\
+      (T = false -> w_off (snd (finish_e L is_last la next_sib pre st ([[]] ++ map esc_text us)))
+                    = (ilen ind L + elen (esc_text (last us [])))%Z).
+  Proof.
+    intros Ho Hla Hns Hne Hlast Hnolf Hhl Hhr Hi0 Hpipe. unfold finish_e. cbn [app].
+    match goal with |- context [consolidate L st _ _ (if ?c then _ else _)] => set (X := c) end.
+    assert (HX : X = true -> is_last = false).
+    { unfold X. intros H. apply andb_prop in H as [_ H]. apply Hns. destruct next_sib; [discriminate|discriminate]. }
+    assert (HXla : X = true -> la = true) by (unfold X; intros H; apply andb_prop in H as [H _]; apply andb_prop in H as [_ H]; exact H).
+    match goal with |- context [consolidate L st _ _ ?ll] =>
+      replace ll with (([] :: map esc_text us) ++ (if X then [[]] else []))
+        by (destruct X; [reflexivity|cbn [app]; rewrite app_nil_r; reflexivity]) end.
+    rewrite (consolidate_form L st is_last la X us Hne Hlast HX).
+    replace (w_off st =? 0)%Z with false by (symmetry; apply Z.eqb_neq; lia).
+    set (T := (X || (is_last && la))%bool).
+    assert (HTla : T = true -> la = true).
+    { unfold T. intros H. apply orb_prop in H as [H|H]; [exact (HXla H)|apply andb_prop in H as [_ H]; exact H]. }
+    destruct (Hpipe T) as (Hok & EW1 & EW2 & w & Hw & Ej).
+    replace ([[]] ++ map esc_text (upd us T) ++ (if T then [[]] else [])) with (map esc_text ([] :: upd us T ++ (if T then [[]] else [])))
+      by (cbn [map app]; rewrite map_app; destruct T; reflexivity).
+    assert (Hok2 : Forall head_ok ([] :: upd us T ++ (if T then [[]] else []))).
+    { constructor; [exact I|]. apply Forall_app. split; [exact Hok|]. destruct T; [constructor; [exact I|constructor]|constructor]. }
+    destruct (write_lines_calc L _ Hok2 st ltac:(lia)) as (D & HsD & HcD & HnD).
+    exists (fst (write_lines ind L st (map esc_text ([] :: upd us T ++ (if T then [[]] else []))))), D, T.
+    destruct (write_lines ind L st (map esc_text ([] :: upd us T ++ (if T then [[]] else [])))) as [cs st'] eqn:Ewl. cbn [fst snd] in *.
+    split; [reflexivity|]. split; [exact HsD|]. split; [|split; [exact HTla|split; [exact HnD|]]].
+    - intros b Y. destruct (HcD b Y ltac:(intros H; lia)) as [E _]. rewrite E.
+      assert (Hune : upd us T ++ (if T then [[]] else []) <> []).
+      { unfold upd. destruct T; [intros E0; apply app_eq_nil in E0 as [_ E0]; discriminate|rewrite app_nil_r; exact Hne]. }
+      match goal with |- context [WR (indent ind L) (?h :: ?XX)] =>
+        replace (WR (indent ind L) (h :: XX)) with (NL ++ WR (indent ind L) XX) by (symmetry; exact (WR_cons (indent ind L) [] XX Hune)) end.
+      rewrite <- !app_assoc. rewrite !(collapse_aux_app NL). f_equal.
+      destruct T.
+      + rewrite EW2, <- !app_assoc. rewrite !(collapse_aux_app i0). f_equal. rewrite Ej, <- !app_assoc.
+        rewrite !(collapse_aux_app (py_join (NL ++ indent ind L) (upd us true))). f_equal.
+        destruct (ws_block w NL Hw all_ws_NL ltac:(discriminate)
+                    (endws (endws (endws b NL) i0) (py_join (NL ++ indent ind L) (upd us true))) Y) as [Hb _].
+        symmetry. exact Hb.
+      + rewrite app_nil_r, EW1. change (upd us false) with us. rewrite <- !app_assoc. reflexivity.
+    - intros ET. rewrite ET in Ewl. change (upd us false ++ []) with (us ++ []) in Ewl. rewrite app_nil_r in Ewl.
+      destruct (exists_last Hne) as (ini & un & Eus). rewrite Eus, last_last in *. rewrite removelast_last in Hhr.
+      assert (Hun : un <> []) by exact Hlast.
+      destruct (write_lines_last L ([] :: ini) un Hun ltac:(constructor; [exact I|exact Hhr]) st) as (stb & Estb & _ & _ & Hb1).
+      assert (E3 : snd (write_lines ind L st (map esc_text ([] :: ini ++ [un]))) = snd (emit stb (indent ind L ++ esc_text un))) by exact Estb.
+      rewrite Ewl in E3. cbn [snd] in E3. rewrite E3. rewrite emit_off_exact.
+      + rewrite (Hb1 ltac:(discriminate)). unfold elen at 1, py_len. rewrite app_length, Nat2Z.inj_add.
+        fold (py_len (indent ind L)). fold (elen (indent ind L)). rewrite elen_indent. unfold elen, py_len. lia.
+      + destruct (indent ind L); [intros E; apply esc_text_nil in E; congruence|discriminate].
+      + pose proof (esc_line_head_ok L un [] Hhl Hun) as H. rewrite app_nil_r in H. exact H.
+      + intros Hi. apply in_app_or in Hi as [Hi|Hi]; [exact (indent_no_lf L Hi)|exact (esc_no_lf un Hnolf Hi)].
+  Qed.
+
+  (* the facts finish_nz needs, for the line lists that occur: a first line that is empty, or begins with the text's
+     leading space, or is an ordinary segment; then ordinary segments *)
+  Lemma upd_cons (x0 : str) (us' : list str) T : us' <> [] -> upd (x0 :: us') T = x0 :: upd us' T.
+  Proof.
+    intros Hn. unfold upd. destruct T; [|reflexivity]. destruct us' as [|u r]; [congruence|].
+    change (removelast (x0 :: u :: r)) with (x0 :: removelast (u :: r)). reflexivity.
+  Qed.
+
+  Lemma head_nows_all_ok l : Forall head_nows l -> Forall head_ok l /\ Forall (fun u : str => u <> []) l.
+  Proof.
+    induction 1 as [|u r Hu _ [IH1 IH2]]; [split; constructor|]. destruct (head_nows_ok u Hu) as [H1 H2].
+    split; constructor; assumption.
+  Qed.
+
+  Lemma upd_ok_gen L us T : Forall head_nows us -> us <> [] ->
+    Forall head_ok (upd us T) /\ Forall (fun u : str => u <> []) (upd us T) /\ upd us T <> [] /\
+    exists w, all_ws w /\ py_join (NL ++ indent ind L) us = py_join (NL ++ indent ind L) (upd us T) ++ w.
+  Proof.
+    intros HF Hne. unfold upd. destruct T.
+    - destruct (exists_last Hne) as (ini & un & ->). rewrite removelast_last, last_last.
+      apply Forall_app in HF as [Hi Hu]. inversion Hu as [|? ? Hun _]; subst.
+      destruct (head_nows_rstrip un Hun) as [Hr1 Hr2]. destruct (rstrip_split un) as (w & Hw & Eun & _).
+      assert (HF2 : Forall head_nows (ini ++ [rstrip un])) by (apply Forall_app; split; [exact Hi|constructor; [exact Hr2|constructor]]).
+      destruct (head_nows_all_ok _ HF2) as [A1 A2]. split; [exact A1|]. split; [exact A2|]. split; [destruct ini; discriminate|].
+      exists w. split; [exact Hw|]. rewrite Eun at 1. apply join_snoc.
+    - destruct (head_nows_all_ok _ HF) as [A1 A2]. split; [exact A1|]. split; [exact A2|]. split; [exact Hne|].
+      exists []. split; [constructor|rewrite app_nil_r; reflexivity].
+  Qed.
+
+  Lemma pipe_gen L (x0 : str) (us' : list str) : Forall head_nows us' ->
+    ((x0 = [] /\ us' <> []) \/ (x0 <> [] /\ head_ok x0 /\ rstrip x0 <> [] /\ head_ok (rstrip x0))) ->
+    forall T, Forall head_ok (upd (x0 :: us') T) /\
+      WR (indent ind L) (upd (x0 :: us') T) = (if null x0 then [] else indent ind L) ++ py_join (NL ++ indent ind L) (upd (x0 :: us') T) /\
+      WR (indent ind L) (upd (x0 :: us') T ++ [[]])
+      = (if null x0 then [] else indent ind L) ++ py_join (NL ++ indent ind L) (upd (x0 :: us') T) ++ NL /\
+      exists w, all_ws w /\ py_join (NL ++ indent ind L) (x0 :: us') = py_join (NL ++ indent ind L) (upd (x0 :: us') T) ++ w.
+  Proof.
+    intros HF Hx T. destruct us' as [|u r].
+    - destruct Hx as [[_ H]|(Hx0 & Hok & Hr & Hrok)]; [congruence|].
+      replace (null x0) with false by (destruct x0; [congruence|reflexivity]).
+      destruct (rstrip_split x0) as (w & Hw & Ex & _).
+      unfold upd. destruct T; cbn [removelast last app WR py_join].
+      + replace (null (rstrip x0)) with false by (destruct (rstrip x0); [congruence|reflexivity]).
+        split; [constructor; [exact Hrok|constructor]|]. split; [reflexivity|]. split; [cbn [null]; rewrite app_nil_r; reflexivity|].
+        exists w. split; [exact Hw|exact Ex].
+      + replace (null x0) with false by (destruct x0; [congruence|reflexivity]).
+        split; [constructor; [exact Hok|constructor]|]. split; [reflexivity|]. split; [cbn [null]; rewrite app_nil_r; reflexivity|].
+        exists []. split; [constructor|rewrite app_nil_r; reflexivity].
+    - rewrite (upd_cons x0 (u :: r) T) by discriminate.
+      destruct (upd_ok_gen L (u :: r) T HF ltac:(discriminate)) as (Hok & Hnn & Hune & w & Hw & Ej).
+      destruct (WR_nonempty (indent ind L) (upd (u :: r) T) Hnn Hune) as [EW1 EW2].
+      assert (Hx0ok : head_ok x0) by (destruct Hx as [[-> _]|(_ & H & _)]; [exact I|exact H]).
+      split; [constructor; assumption|].
+      assert (Ejc : forall Y, Y <> [] -> py_join (NL ++ indent ind L) (x0 :: Y) = x0 ++ (NL ++ indent ind L) ++ py_join (NL ++ indent ind L) Y)
+        by (intros Y HY; destruct Y; [congruence|reflexivity]).
+      split; [|split].
+      + rewrite (WR_cons (indent ind L) x0 _ Hune), EW1, (Ejc _ Hune).
+        destruct (null x0) eqn:En; [destruct x0; [|discriminate]|]; rewrite <- ?app_assoc; reflexivity.
+      + change ((x0 :: upd (u :: r) T) ++ [[]]) with (x0 :: (upd (u :: r) T ++ [[]])).
+        rewrite (WR_cons (indent ind L) x0 (upd (u :: r) T ++ [[]])) by (intros E0; apply app_eq_nil in E0 as [_ E0]; discriminate).
+        rewrite EW2, (Ejc _ Hune).
+        destruct (null x0) eqn:En; [destruct x0; [|discriminate]|]; rewrite <- ?app_assoc; reflexivity.
+      + exists w. split; [exact Hw|]. rewrite (Ejc (u :: r) ltac:(discriminate)), (Ejc _ Hune), Ej. rewrite <- !app_assoc. reflexivity.
   Qed.
 
   Definition tstep_post (L : nat) (st st' : wst) (cs : list chunk) (p : str) (prev next : option node)
@@ -666,5 +1011,321 @@ Section TextStep.
     Proof. intros H. rewrite !esc_text_app. rewrite (esc_ws_indent _ pre_of_ws), (esc_ws_indent _ H). reflexivity. Qed.
     Lemma e_not_sp : str_eqb (optsp lead ++ K ++ optsp trail) [SP] = false.
     Proof. apply core_not_sp. exact coreK. Qed.
+
+    (* ---- _serialize_text_over_lines --------------------------------------------------------------------- *)
+    Variable rp : rpath.
+    Notation t := (k ++ optsp trail).
+    Notation sep := (NL ++ indent ind L).
+    Notation is_last := (match next with None => true | Some _ => false end).
+    Notation la := (legit_after (Text s) next).
+    Notation next_sib := (match next, rp with Some _, i :: pp => Some (S i :: pp) | _, _ => @None rpath end).
+
+    Lemma esc_t : K ++ optsp trail = esc_text t.
+    Proof. rewrite esc_text_app, esc_optsp. reflexivity. Qed.
+
+    Lemma all_ws_sep : all_ws sep /\ sep <> [].
+    Proof. split; [apply all_ws_app; [apply all_ws_NL|apply all_ws_indent; exact ind_ws]|discriminate]. Qed.
+
+    (* the cut of t into lines, with everything that is needed about it *)
+    Lemma lines_of_t : exists us c t0,
+      wrap_lines (esc_text t) width = map esc_text us /\ wl (Z.to_nat width) t us c /\ Forall head_nows us /\ us <> [] /\
+      t = t0 ++ optsp c /\ (c = true -> trail = true /\ t0 = k) /\ (c = false -> t0 = t) /\
+      (forall b, collapse_aux b (py_join sep us) = collapse_aux b t0 /\ endws b (py_join sep us) = endws b t0).
+    Proof.
+      destruct (text_tail_naw k trail Hk) as (Hn & Hh & Hne).
+      destruct (wrap_lines_wl t width width_pos Hne) as (us & c & E & Hw).
+      destruct (wl_collapse _ _ _ _ sep Hw (proj1 all_ws_sep) (proj2 all_ws_sep)) as (t0 & Et & Hc).
+      exists us, c, t0. unfold wrap_lines. rewrite E. split; [reflexivity|]. split; [exact Hw|].
+      split; [exact (wl_segs_ok _ _ _ _ Hw Hn Hh)|]. split; [exact (wl_nonempty _ _ _ _ Hw)|]. split; [exact Et|].
+      split; [|split; [|exact Hc]].
+      - intros ->. cbn [optsp] in Et. destruct trail; cbn [optsp] in Et.
+        + apply app_inj_tail in Et as [Et _]. auto.
+        + exfalso. rewrite app_nil_r in Et. pose proof (proj1 (proj2 Hk)) as Hl. rewrite Et in Hl.
+          unfold last_nows in Hl. rewrite rev_app_distr in Hl. cbn in Hl. rewrite is_ws_SP in Hl. discriminate.
+      - intros ->. cbn [optsp] in Et. rewrite app_nil_r in Et. symmetry. exact Et.
+    Qed.
+
+    Lemma upd_ok us T : Forall head_nows us -> us <> [] ->
+      Forall head_ok (upd us T) /\ Forall (fun u : str => u <> []) (upd us T) /\ upd us T <> [] /\
+      exists w, all_ws w /\ py_join sep us = py_join sep (upd us T) ++ w.
+    Proof.
+      intros HF Hne. assert (Hall : forall l, Forall head_nows l -> Forall head_ok l /\ Forall (fun u : str => u <> []) l).
+      { induction 1 as [|u r Hu _ [IH1 IH2]]; [split; constructor|]. destruct (head_nows_ok u Hu) as [H1 H2].
+        split; constructor; assumption. }
+      unfold upd. destruct T.
+      - destruct (exists_last Hne) as (ini & un & ->). rewrite removelast_last, last_last.
+        apply Forall_app in HF as [Hi Hu]. inversion Hu as [|? ? Hun _]; subst.
+        destruct (head_nows_rstrip un Hun) as [Hr1 Hr2]. destruct (rstrip_split un) as (w & Hw & Eun & _).
+        assert (HF2 : Forall head_nows (ini ++ [rstrip un])) by (apply Forall_app; split; [exact Hi|constructor; [exact Hr2|constructor]]).
+        destruct (Hall _ HF2) as [A1 A2]. split; [exact A1|]. split; [exact A2|]. split; [destruct ini; discriminate|].
+        exists w. split; [exact Hw|]. rewrite Eun at 1. apply join_snoc.
+      - destruct (Hall _ HF) as [A1 A2]. split; [exact A1|]. split; [exact A2|]. split; [exact Hne|].
+        exists []. split; [constructor|rewrite app_nil_r; reflexivity].
+    Qed.
+
+    Lemma tol_off0 : w_off st = 0%Z ->
+      tstep_post L st
+        (snd (text_over_lines ind width req L st rp (optsp lead ++ K ++ optsp trail) (legit_before prev (Text s)) la is_last next_sib))
+        (fst (text_over_lines ind width req L st rp (optsp lead ++ K ++ optsp trail) (legit_before prev (Text s)) la is_last next_sib))
+        p prev next lead trail k.
+    Proof.
+      intros H0. destruct (off0_lb H0) as [Hlb Hp]. unfold text_over_lines. cbv beta zeta.
+      replace (w_off st =? 0)%Z with true by (rewrite H0; reflexivity). rewrite Hlb. cbn [app].
+      rewrite lstrip_e, esc_t.
+      destruct lines_of_t as (us & c & t0 & Ewrap & Hwl & HF & Hne & Et & Hc1 & Hc0 & Hcol). rewrite Ewrap.
+      match goal with |- context [consolidate L st _ _ (if ?c then _ else _)] => set (X := c) end.
+      assert (HX : X = true -> is_last = false).
+      { unfold X. intros H. apply andb_prop in H as [_ H]. destruct next; [reflexivity|discriminate]. }
+      assert (HXla : X = true -> la = true) by (unfold X; intros H; apply andb_prop in H as [H _]; apply andb_prop in H as [_ H]; exact H).
+      match goal with |- context [consolidate L st _ _ ?ll] =>
+        replace ll with (([] :: map esc_text us) ++ (if X then [[]] else []))
+          by (destruct X; [reflexivity|cbn [app]; rewrite app_nil_r; reflexivity]) end.
+      assert (Hlast : last us [] <> []).
+      { destruct (exists_last Hne) as (ini & un & ->). rewrite last_last. apply Forall_app in HF as [_ Hu].
+        inversion Hu; subst. apply head_nows_ok. assumption. }
+      rewrite (consolidate_form L st is_last la X us Hne Hlast HX).
+      replace (w_off st =? 0)%Z with true by (rewrite H0; reflexivity). cbn [app].
+      set (T := (X || (is_last && la))%bool).
+      assert (HTla : T = true -> la = true).
+      { unfold T. intros H. apply orb_prop in H as [H|H]; [exact (HXla H)|apply andb_prop in H as [_ H]; exact H]. }
+      destruct (upd_ok us T HF Hne) as (Hok & Hnn & Hune & w & Hw & Ej).
+      replace (map esc_text (upd us T) ++ (if T then [[]] else [])) with (map esc_text (upd us T ++ (if T then [[]] else [])))
+        by (rewrite map_app; destruct T; reflexivity).
+      assert (Hok2 : Forall head_ok (upd us T ++ (if T then [[]] else []))).
+      { apply Forall_app. split; [exact Hok|]. destruct T; [constructor; [exact I|constructor]|constructor]. }
+      destruct (write_lines_calc L _ Hok2 st (proj1 Hinv)) as (D & HsD & HcD & HnD).
+      assert (Hhd : null (hd [SP] (upd us T ++ (if T then [[]] else []))) = false).
+      { destruct (upd us T) as [|u0 r0] eqn:Eu; [congruence|]. inversion Hnn; subst. cbn. destruct u0; [congruence|reflexivity]. }
+      destruct (HcD false [] ltac:(intros _ H; rewrite Hhd in H; discriminate)) as [EcD _]. rewrite !app_nil_r in EcD.
+      destruct (write_lines ind L st (map esc_text (upd us T ++ (if T then [[]] else [])))) as [cs st'] eqn:Ewl. cbn [fst snd] in *.
+      (* the collapsed form of what was written *)
+      assert (Ht0 : exists tr0, t0 = k ++ optsp tr0 /\ (tr0 = true -> trail = true) /\ (c = false -> tr0 = trail) /\ (c = true -> tr0 = false)).
+      { destruct c; [destruct (Hc1 eq_refl) as [Htr ->]; exists false; rewrite app_nil_r; repeat split; congruence|].
+        exists trail. rewrite (Hc0 eq_refl). repeat split; congruence. }
+      destruct Ht0 as (tr0 & Et0 & Htr0 & Hc0' & Hc1').
+      destruct (WR_nonempty (indent ind L) (upd us T) Hnn Hune) as [EW1 EW2].
+      assert (Hform : collapse D = optsp (negb (null (indent ind L))) ++ k ++ optsp (T || tr0)).
+      { unfold collapse. rewrite EcD. fold (collapse (WR (indent ind L) (upd us T ++ (if T then [[]] else [])))).
+        destruct T.
+        - rewrite EW2.
+          (* the stripped trailing whitespace does not show next to the newline *)
+          assert (E1 : collapse (indent ind L ++ py_join sep (upd us true) ++ NL) = collapse (indent ind L ++ py_join sep us ++ NL)).
+          { unfold collapse. rewrite !(collapse_aux_app (indent ind L)). f_equal. rewrite Ej, <- app_assoc.
+            rewrite !(collapse_aux_app (py_join sep (upd us true))). f_equal.
+            destruct (ws_block w NL Hw all_ws_NL ltac:(discriminate)
+                        (endws (endws false (indent ind L)) (py_join sep (upd us true))) []) as [Hb _].
+            rewrite !app_nil_r in Hb. symmetry. exact Hb. }
+          rewrite E1. rewrite (collapse_replace _ t0 (indent ind L) NL Hcol). rewrite Et0, <- app_assoc.
+          rewrite (collapse_pad (indent ind L) k (optsp tr0 ++ NL)); [|apply all_ws_indent; exact ind_ws|apply all_ws_app; [apply all_ws_optsp|apply all_ws_NL]|exact Hk].
+          replace (null (optsp tr0 ++ NL)) with false by (destruct tr0; reflexivity). reflexivity.
+        - rewrite app_nil_r, EW1. change (upd us false) with us. rewrite <- (app_nil_r (py_join sep us)).
+          rewrite (collapse_replace _ t0 (indent ind L) [] Hcol). rewrite app_nil_r, Et0.
+          rewrite (collapse_pad (indent ind L) k (optsp tr0)); [|apply all_ws_indent; exact ind_ws|apply all_ws_optsp|exact Hk].
+          destruct tr0; reflexivity. }
+      exists D, (negb (null (indent ind L))), (T || tr0)%bool.
+      split; [exact HsD|]. split; [exact Hform|]. split; [intros _; right; exact Hp|]. split.
+      { intros Hpn Hl. exfalso. exact (nolead_off Hpn Hl H0). }
+      split.
+      { intros Hb. apply orb_prop in Hb as [Hb|Hb]; [exact (HTla Hb)|apply la_trail; exact (Htr0 Hb)]. }
+      destruct T eqn:ET; [split; [intros _; left; reflexivity|split; [exact HnD|reflexivity]]|].
+      (* no trailing empty line: the last line stands without a newline *)
+      change (upd us false ++ []) with (us ++ []) in Ewl. rewrite app_nil_r in Ewl.
+      destruct (exists_last Hne) as (ini & un & Eus).
+      assert (Hun : head_nows un) by (rewrite Eus in HF; apply Forall_app in HF as [_ Hu]; inversion Hu; assumption).
+      destruct (head_nows_ok un Hun) as [Hun1 Hun2].
+      assert (Hini : Forall head_ok ini).
+      { rewrite Eus in HF. apply Forall_app in HF as [Hi _]. clear - Hi. induction Hi as [|u r Hu _ IH]; constructor; [apply head_nows_ok; exact Hu|exact IH]. }
+      assert (Hnolf : ~ In LF (esc_text un)).
+      { apply esc_no_lf. intros Hi. pose proof (wl_incl _ _ _ _ Hwl un ltac:(rewrite Eus; apply in_or_app; right; left; reflexivity) LF Hi) as Ht.
+        apply in_app_or in Ht as [Ht|Ht]; [exact (collapse_fix_no_lf k false (proj2 (proj2 Hk)) Ht)|destruct trail; [destruct Ht as [E|[]]; discriminate|destruct Ht]]. }
+      destruct (write_lines_last L ini un Hun1 Hini st) as (stb & Estb & Hnb & Hb0 & Hb1).
+      assert (E3 : snd (write_lines ind L st (map esc_text us)) = snd (emit stb (indent ind L ++ esc_text un)))
+        by (rewrite Eus; exact Estb).
+      rewrite Ewl in E3. cbn [snd] in E3. clear Estb. rename E3 into Estb.
+      assert (Hob : w_off stb = 0%Z) by (destruct ini; [rewrite (Hb0 eq_refl); exact H0|apply Hb1; discriminate]).
+      assert (Eoff : w_off st' = (ilen ind L + elen (esc_text un))%Z).
+      { rewrite Estb. rewrite emit_off_exact.
+        - rewrite Hob. unfold elen at 1, py_len. rewrite app_length, Nat2Z.inj_add. fold (py_len (indent ind L)). fold (elen (indent ind L)).
+          rewrite elen_indent. unfold elen, py_len. lia.
+        - destruct (indent ind L); [intros E; apply esc_text_nil in E; congruence|discriminate].
+        - pose proof (esc_line_head_ok L un [] Hun2 Hun1) as H. rewrite app_nil_r in H. exact H.
+        - intros Hi. apply in_app_or in Hi as [Hi|Hi]; [|exact (Hnolf Hi)].
+          pose proof (indent_head_nolf ind ind_nolf) as _. clear - Hi ind_nolf.
+          unfold indent in Hi. induction L as [|n IH]; [destruct Hi|]. cbn [repeat_str] in Hi. apply in_app_or in Hi as [Hi|Hi]; [|exact (IH Hi)].
+          unfold no_lf in ind_nolf. rewrite forallb_forall in ind_nolf. specialize (ind_nolf LF Hi). discriminate. }
+      assert (Hpos : (0 < elen (esc_text un))%Z).
+      { unfold elen, py_len. destruct (esc_text un) eqn:E; [apply esc_text_nil in E; congruence|cbn [length]; lia]. }
+      assert (Hil : (0 <= ilen ind L)%Z) by (unfold ilen, elen, py_len; lia).
+      split; [|split; [exact HnD|intros Hz; lia]].
+      intros Htrail. cbn [orb]. destruct tr0; [left; reflexivity|right].
+      assert (Ec : c = true) by (destruct c; [reflexivity|rewrite (Hc0' eq_refl) in *; congruence]). subst c.
+      pose proof (wl_consumed_last _ _ _ Hwl) as Hcons. rewrite Eus, last_last in Hcons.
+      unfold owed, available, line_offset. split; [lia|].
+      replace (w_off st' =? 0)%Z with false by (symmetry; apply Z.eqb_neq; lia).
+      unfold elen, py_len in *. lia.
+    Qed.
+
+    (* ---- the partial-line branch ------------------------------------------------------------------------- *)
+
+    (* collapsing lines cut from  lw ++ t  (lw: nothing, or the leading space of the text) *)
+    Lemma join_form (lw : str) us c : (lw = [] \/ lw = [SP]) -> wl (Z.to_nat width) (lw ++ t) us c ->
+      exists tr0, (tr0 = true -> trail = true) /\ (c = false -> tr0 = trail) /\ (c = true -> tr0 = false) /\
+        forall g0 g1, all_ws g0 -> all_ws g1 ->
+          collapse (g0 ++ py_join sep us ++ g1) = optsp (negb (null (g0 ++ lw))) ++ k ++ optsp (negb (null (optsp tr0 ++ g1))).
+    Proof.
+      intros Hlw Hwl. destruct (wl_collapse _ _ _ _ sep Hwl (proj1 all_ws_sep) (proj2 all_ws_sep)) as (t0 & Et & Hc).
+      assert (Ht0 : exists tr0, t0 = lw ++ k ++ optsp tr0 /\ (tr0 = true -> trail = true) /\ (c = false -> tr0 = trail) /\ (c = true -> tr0 = false)).
+      { destruct c; cbn [optsp] in Et.
+        - destruct trail; cbn [optsp] in Et.
+          + exists false. replace (lw ++ k ++ [SP]) with ((lw ++ k) ++ [SP]) in Et by (rewrite <- app_assoc; reflexivity).
+            apply app_inj_tail in Et as [Et _]. rewrite app_nil_r. repeat split; congruence.
+          + exfalso. rewrite app_nil_r in Et. pose proof (proj1 (proj2 Hk)) as Hl.
+            assert (Hl2 : last_nows (lw ++ k)) by (apply last_nows_app; exact Hl). rewrite Et in Hl2.
+            unfold last_nows in Hl2. rewrite rev_app_distr in Hl2. cbn in Hl2. rewrite is_ws_SP in Hl2. discriminate.
+        - rewrite app_nil_r in Et. exists trail. repeat split; congruence. }
+      destruct Ht0 as (tr0 & -> & H1 & H2 & H3). exists tr0. split; [exact H1|]. split; [exact H2|]. split; [exact H3|].
+      intros g0 g1 Hg0 Hg1. rewrite (collapse_replace _ _ g0 g1 Hc).
+      replace (g0 ++ (lw ++ k ++ optsp tr0) ++ g1) with ((g0 ++ lw) ++ k ++ (optsp tr0 ++ g1)) by (rewrite <- !app_assoc; reflexivity).
+      apply collapse_pad; [|apply all_ws_app; [apply all_ws_optsp|exact Hg1]|exact Hk].
+      apply all_ws_app; [exact Hg0|]. destruct Hlw as [->| ->]; [constructor|apply (all_ws_optsp true)].
+    Qed.
+
+    Lemma s_no_lf : ~ In LF s.
+    Proof.
+      intros Hi. apply in_app_or in Hi as [Hi|Hi]; [destruct lead; [destruct Hi as [E|[]]; discriminate|destruct Hi]|].
+      apply in_app_or in Hi as [Hi|Hi]; [exact (collapse_fix_no_lf k false (proj2 (proj2 Hk)) Hi)|].
+      destruct trail; [destruct Hi as [E|[]]; discriminate|destruct Hi].
+    Qed.
+
+    Lemma ends_lf_notin d : ~ In LF d -> ends_lf d = false.
+    Proof.
+      intros H. unfold ends_lf, py_last1. destruct (rev d) as [|c r] eqn:E; [reflexivity|].
+      cbn. destruct (N.eqb_spec c 10) as [->|]; [|reflexivity]. exfalso. apply H. apply in_rev. rewrite E. left. reflexivity.
+    Qed.
+
+    (* packaging a postcondition *)
+    Lemma post_pack st' cs D a b : sees cs D -> collapse D = optsp a ++ k ++ optsp b ->
+      (lead = true -> a = true) -> (prev <> None -> lead = false -> a = false) ->
+      (b = true -> la = true) -> (trail = true -> b = true \/ owed L st') -> (0 <= w_off st')%Z -> (w_off st' = 0%Z -> b = true) ->
+      tstep_post L st st' cs p prev next lead trail k.
+    Proof.
+      intros H1 H2 H3 H4 H5 H6 H7 H8. exists D, a, b. repeat split; try assumption. intros Hl. left. exact (H3 Hl).
+    Qed.
+    (* the lines that follow the filling, or replace it: common treatment *)
+    Lemma lines_after (tt : str) (x0 : str) (us' : list str) c pre st1 :
+      wl (Z.to_nat width) tt (x0 :: us') c -> ~ In LF tt -> Forall head_nows us' ->
+      ((x0 = [] /\ us' <> []) \/ (x0 <> [] /\ head_ok x0 /\ rstrip x0 <> [] /\ head_ok (rstrip x0))) ->
+      (0 < w_off st1)%Z ->
+      exists cs2 D2 (T : bool),
+        fst (finish_e L is_last la next_sib pre st1 ([[]] ++ map esc_text (x0 :: us'))) = pre ++ cs2 /\ sees cs2 D2 /\
+        (forall b Y, collapse_aux b (D2 ++ Y)
+                     = collapse_aux b (NL ++ (if null x0 then [] else indent ind L) ++ py_join sep (x0 :: us') ++ (if T then NL else []) ++ Y)) /\
+        (T = true -> la = true) /\
+        (0 <= w_off (snd (finish_e L is_last la next_sib pre st1 ([[]] ++ map esc_text (x0 :: us')))))%Z /\
+        (w_off (snd (finish_e L is_last la next_sib pre st1 ([[]] ++ map esc_text (x0 :: us')))) = 0%Z -> T = true) /\
+        (T = false -> c = true -> owed L (snd (finish_e L is_last la next_sib pre st1 ([[]] ++ map esc_text (x0 :: us'))))).
+    Proof.
+      intros Hwl Hnolf HF Hx Hpos.
+      assert (Hlastfacts : last (x0 :: us') [] <> [] /\ head_ok (last (x0 :: us') []) /\ Forall head_ok (removelast (x0 :: us'))).
+      { destruct (head_nows_all_ok _ HF) as [Hok Hnn].
+        assert (Hx0 : head_ok x0) by (destruct Hx as [[-> _]|(_ & H & _)]; [exact I|exact H]).
+        destruct us' as [|u r].
+        - destruct Hx as [[_ H]|(Hx0n & _)]; [congruence|]. cbn [last removelast]. repeat split; [exact Hx0n|exact Hx0|constructor].
+        - destruct (exists_last (l:=u :: r) ltac:(discriminate)) as (ini & un & Eu). rewrite Eu in *.
+          change (x0 :: ini ++ [un]) with ((x0 :: ini) ++ [un]). rewrite last_last, removelast_last.
+          apply Forall_app in Hok as [Hoi Hou]. apply Forall_app in Hnn as [_ Hnu]. inversion Hou; inversion Hnu; subst.
+          repeat split; [assumption|assumption|constructor; assumption]. }
+      destruct Hlastfacts as (Hl1 & Hl2 & Hl3).
+      assert (Hnolf2 : ~ In LF (last (x0 :: us') [])).
+      { intros Hi. apply Hnolf. apply (wl_incl _ _ _ _ Hwl (last (x0 :: us') [])); [|exact Hi].
+        destruct (exists_last (l:=x0 :: us') ltac:(discriminate)) as (ini & un & Eu). rewrite Eu, last_last. apply in_or_app. right. left. reflexivity. }
+      assert (Hla' : is_last = true -> la = true) by (destruct next; [discriminate|reflexivity]).
+      assert (Hns : next_sib <> None -> is_last = false) by (destruct next; [reflexivity|congruence]).
+      destruct (finish_nz L is_last la next_sib pre st1 (x0 :: us') (if null x0 then [] else indent ind L)
+                  Hpos Hla' Hns ltac:(discriminate) Hl1 Hnolf2 Hl2 Hl3
+                  ltac:(destruct (null x0); [constructor|apply all_ws_indent; exact ind_ws])
+                  (fun T => pipe_gen L x0 us' HF Hx T))
+        as (cs2 & D2 & T & E1 & Hs & Hc & HT & Hn & Hoff).
+      exists cs2, D2, T. split; [exact E1|]. split; [exact Hs|]. split; [exact Hc|]. split; [exact HT|]. split; [exact Hn|].
+      assert (Hpe : (0 < elen (esc_text (last (x0 :: us') [])))%Z).
+      { unfold elen, py_len. destruct (esc_text (last (x0 :: us') [])) eqn:E; [apply esc_text_nil in E; congruence|cbn [length]; lia]. }
+      assert (Hil : (0 <= ilen ind L)%Z) by (unfold ilen, elen, py_len; lia).
+      split.
+      - intros Hz. destruct T; [reflexivity|]. rewrite (Hoff eq_refl) in Hz. exfalso.
+        match type of Hz with (_ + ?e = 0)%Z => assert (Hpe' : (0 < e)%Z) by exact Hpe end. lia.
+      - intros ET Ec. subst c. pose proof (wl_consumed_last _ _ _ Hwl) as Hcons.
+        unfold owed, available, line_offset. rewrite (Hoff ET).
+        match goal with |- ((_ + ?e)%Z <> _ /\ _) =>
+          assert (Hpe' : (0 < e)%Z) by exact Hpe;
+          assert (Hc' : (width <= e)%Z) by (apply Nat2Z.inj_le in Hcons; rewrite Z2Nat.id in Hcons by lia; exact Hcons) end.
+        split; [lia|].
+        match goal with |- context [(?x =? 0)%Z] => replace (x =? 0)%Z with false by (symmetry; apply Z.eqb_neq; lia) end.
+        lia.
+    Qed.
+
+    Lemma t_no_lf : ~ In LF t.
+    Proof. intros Hi. apply s_no_lf. apply in_or_app. right. exact Hi. Qed.
+
+    Lemma tol_nz : w_off st <> 0%Z ->
+      tstep_post L st
+        (snd (text_over_lines ind width req L st rp (optsp lead ++ K ++ optsp trail) (legit_before prev (Text s)) la is_last next_sib))
+        (fst (text_over_lines ind width req L st rp (optsp lead ++ K ++ optsp trail) (legit_before prev (Text s)) la is_last next_sib))
+        p prev next lead trail k.
+    Proof.
+      intros H0. pose proof (proj1 Hinv) as Hnn. assert (Hpos : (0 < w_off st)%Z) by lia.
+      rewrite tol_unfold. replace (w_off st =? 0)%Z with false by (symmetry; apply Z.eqb_neq; exact H0). cbv zeta.
+      assert (Esw : py_startswith (optsp lead ++ K ++ optsp trail) [SP] = lead).
+      { change [SP] with [32%N]. rewrite py_startswith_sp. destruct lead; cbn [optsp app]; [reflexivity|apply startswith_core; exact (proj1 coreK)]. }
+      rewrite Esw.
+      set (avail := available ind width L st).
+      set (wz := (avail - (if lead then 1 else 0))%Z).
+      assert (Efill : (if lead then [SP] ++ hd [] (wrap_lines (py_slice_from (optsp lead ++ K ++ optsp trail) 1) (avail - 1))
+                       else hd [] (wrap_lines (optsp lead ++ K ++ optsp trail) avail))
+                      = optsp lead ++ hd [] (wrap_lines (esc_text t) wz)).
+      { unfold wz. destruct lead; cbn [optsp app].
+        - unfold py_slice_from. change (Z.to_nat 1) with 1%nat. cbn [skipn]. rewrite esc_t. reflexivity.
+        - rewrite esc_t, Z.sub_0_r. reflexivity. }
+      rewrite Efill.
+      destruct (text_tail_naw k trail Hk) as (Hn & Hh & Hne).
+      destruct (first_line_any t wz Hne Hh Hn) as (f & rem & Ehd & Hf & Hfh & Et & Hrem).
+      unfold wrap_lines at 1 2 3. rewrite Ehd.
+      set (X := optsp lead ++ f).
+      assert (EX : optsp lead ++ esc_text f = esc_text X) by (unfold X; rewrite esc_text_app, esc_optsp; reflexivity).
+      rewrite EX.
+      admit.
+    Admitted.
+
+    (* _serialize_text as a whole, given the partial-line branch of _serialize_text_over_lines *)
+    Variable foll : option rpath.
+    Hypothesis Hnext : match next with Some y => is_text y = false | None => True end.
+
+    Lemma cond_la (c : rpath -> bool) :
+      (is_last || match next with
+                  | Some y => match foll with Some f => legit_before (Some (Text s)) y && c f | None => false end
+                  | None => false end)%bool = true -> la = true.
+    Proof.
+      destruct next as [y|]; [|reflexivity]. cbn [orb]. destruct foll; [|discriminate]. intros H. apply andb_prop in H as [H _].
+      cbn [legit_after]. destruct y; try discriminate; exact H.
+    Qed.
+
+    Lemma w_text_step_from (Hover : (w_off st <> 0)%Z ->
+        tstep_post L st
+          (snd (text_over_lines ind width req L st rp (optsp lead ++ K ++ optsp trail) (legit_before prev (Text s)) la is_last next_sib))
+          (fst (text_over_lines ind width req L st rp (optsp lead ++ K ++ optsp trail) (legit_before prev (Text s)) la is_last next_sib))
+          p prev next lead trail k) :
+      tstep_post L st (snd (w_text ind width req L st rp prev s next foll)) (fst (w_text ind width req L st rp prev s next foll))
+                 p prev next lead trail k.
+    Proof.
+      unfold w_text. cbv zeta. rewrite !e_form. rewrite rstrip_e. rewrite !cprime_form, !rstrip_cprime.
+      replace ((pre_of ++ K) ++ NL) with (esc_text (pre_of ++ k ++ NL)) by (rewrite <- (esc_piece NL eq_refl), <- app_assoc; reflexivity).
+      replace (pre_of ++ K ++ optsp trail) with (esc_text (pre_of ++ k ++ optsp trail)) by (rewrite <- (esc_piece _ (ws_indent_optsp trail)); reflexivity).
+      destruct ((available ind width L st =? elen (optsp lead ++ K))%Z && la)%bool eqn:E1.
+      - apply andb_prop in E1 as [_ E1]. apply one_piece_post. left. split; [reflexivity|exact E1].
+      - destruct (available ind width L st >? elen (optsp lead ++ K ++ optsp trail))%Z.
+        + match goal with |- context [if ?c then esc_text (pre_of ++ k ++ NL) else _] => destruct c eqn:Ec end.
+          * apply one_piece_post. left. split; [reflexivity|exact (cond_la (fun f => req_is_none req f _) Ec)].
+          * apply one_piece_post. right. reflexivity.
+        + rewrite e_not_sp. destruct (Z.eq_dec (w_off st) 0) as [H0|H0]; [exact (tol_off0 H0)|exact (Hover H0)].
+    Qed.
   End OneText.
 End TextStep.
